@@ -1627,3 +1627,323 @@ def gen_degree_iter_step(an: ast.AST) -> str:
         comp = StackCompiler()
         out.append(f"  | .{ctor} {binders} =>\n      " + comp.block(stmts, env, "      ", "stk", "rs"))
     return "\n".join(out) + "\n"
+
+
+# ======================================================================================================
+#  `jacobian_row` methods of the vector / matrix nodes (vectors.py, matrices.py): Option (List Expr)
+# ======================================================================================================
+
+class RowCompiler:
+    def __init__(self):
+        self.fresh = 0
+
+    def new(self, b):
+        self.fresh += 1
+        return f"{b}{self.fresh}"
+
+    def rat(self, node, env):
+        k = ast.unparse(node)
+        if k in env and env[k][1] == "Rat":
+            return env[k][0]
+        if isinstance(node, ast.Constant) and isinstance(node.value, (int, float)) and not isinstance(node.value, bool):
+            return lean_rat(node.value)
+        if isinstance(node, ast.UnaryOp) and isinstance(node.op, ast.USub) and isinstance(node.operand, ast.Constant):
+            return lean_rat(-node.operand.value)
+        if isinstance(node, ast.Call) and ast.unparse(node.func) == "float" and len(node.args) == 1:
+            return self.rat(node.args[0], env)
+        if isinstance(node, ast.BinOp) and isinstance(node.op, (ast.Add, ast.Sub, ast.Mult)):
+            op = {ast.Add: "+", ast.Sub: "-", ast.Mult: "*"}[type(node.op)]
+            return f"({self.rat(node.left, env)} {op} {self.rat(node.right, env)})"
+        # d.get(v, default) on a dict of numbers / counts
+        if isinstance(node, ast.Call) and isinstance(node.func, ast.Attribute) and node.func.attr == "get" and len(node.args) == 2:
+            dk = ast.unparse(node.func.value)
+            vk = ast.unparse(node.args[0])
+            if dk in env and vk in env and env[vk][1] == "Var":
+                d, ty = env[dk]
+                if ty == "Dict:Rat":
+                    return f"((dictGet {env[vk][0]}.name {d}).getD {self.rat(node.args[1], env)})"
+                if ty == "Count" and ast.unparse(node.args[1]) == "0":
+                    return f"((countName {env[vk][0]}.name {d} : Nat) : Rat)"
+        raise TranslateError(f"unsupported numeric expression {ast.unparse(node)!r} at line {getattr(node, 'lineno', '?')}")
+
+    def ratlist(self, node, env):
+        # Q_plus_QT[i, :]
+        if isinstance(node, ast.Subscript) and isinstance(node.slice, ast.Tuple) and len(node.slice.elts) == 2:
+            bk = ast.unparse(node.value)
+            i, c = node.slice.elts
+            if bk in env and env[bk][1] == "RatMat" and isinstance(c, ast.Slice) and c.lower is None and c.upper is None \
+                    and ast.unparse(i) in env and env[ast.unparse(i)][1] == "Nat":
+                return f"({env[bk][0]}.getD {env[ast.unparse(i)][0]} [])"
+        k = ast.unparse(node)
+        if k in env and env[k][1] == "RatList":
+            return env[k][0]
+        raise TranslateError(f"unsupported coefficient list {ast.unparse(node)!r} at line {getattr(node, 'lineno', '?')}")
+
+    def ex(self, node, env):
+        k = ast.unparse(node)
+        if k in env:
+            t, ty = env[k]
+            if ty == "Expr":
+                return t
+            if ty == "Var":
+                return f"(Expr.var {t})"
+        if isinstance(node, ast.Call) and isinstance(node.func, ast.Name):
+            fn, args = node.func.id, node.args
+            if fn == "Constant" and len(args) == 1:
+                return f"(Expr.c {self.rat(args[0], env)})"
+            if fn == "UnaryOp" and len(args) == 2 and isinstance(args[1], ast.Constant):
+                return f"(Expr.un .{args[1].value} {self.ex(args[0], env)})"
+            if fn == "BinaryOp" and len(args) == 3 and isinstance(args[2], ast.Constant) and args[2].value in BINOP_NAMES:
+                return f"(Expr.bin .{BINOP_NAMES[args[2].value]} {self.ex(args[0], env)} {self.ex(args[1], env)})"
+            if fn == "LinearCombination" and len(args) == 2:
+                vk = "vecterm:" + ast.unparse(args[1])
+                if vk in env and env[vk][1] == "VecTerm":
+                    return f"(Expr.linComb {self.ratlist(args[0], env)} {env[vk][0]})"
+        # d.get(v, default) on a dict of expressions
+        if isinstance(node, ast.Call) and isinstance(node.func, ast.Attribute) and node.func.attr == "get" and len(node.args) == 2:
+            dk, vk = ast.unparse(node.func.value), ast.unparse(node.args[0])
+            if dk in env and env[dk][1] == "Dict:Expr" and vk in env and env[vk][1] == "Var":
+                return f"((dictGet {env[vk][0]}.name {env[dk][0]}).getD {self.ex(node.args[1], env)})"
+        # d[var] (guarded by `var in d`)
+        if isinstance(node, ast.Subscript):
+            dk, vk = ast.unparse(node.value), ast.unparse(node.slice)
+            if dk in env and env[dk][1] == "Dict:Var" and vk in env and env[vk][1] == "Var":
+                return f"(Expr.var ((dictGet {env[vk][0]}.name {env[dk][0]}).getD {env[vk][0]}))"
+        raise TranslateError(f"unsupported expression {ast.unparse(node)!r} at line {getattr(node, 'lineno', '?')}")
+
+    def cond(self, node, env):
+        if isinstance(node, ast.BoolOp):
+            return "(" + (" && " if isinstance(node.op, ast.And) else " || ").join(self.cond(v, env) for v in node.values) + ")"
+        if isinstance(node, ast.Compare) and len(node.ops) == 1:
+            l, r, o = node.left, node.comparators[0], node.ops[0]
+            lk, rk = ast.unparse(l), ast.unparse(r)
+            if isinstance(o, ast.In) and lk in env and env[lk][1] == "Var" and rk in env:
+                t, ty = env[rk]
+                if ty == "VarSet":
+                    return f"(hasName {env[lk][0]}.name {t})"
+                if ty.startswith("Dict:"):
+                    return f"((dictGet {env[lk][0]}.name {t}).isSome)"
+            if isinstance(o, ast.Is) and lk in env and rk in env and env[lk][1] == env[rk][1] == "VVarObj":
+                return f"({env[lk][0]}.oid == {env[rk][0]}.oid)"
+            if isinstance(o, ast.Eq) and lk in env and env[lk][1] == "Rat" and isinstance(r, ast.Constant):
+                return f"({env[lk][0]} == {lean_rat(r.value)})"
+        raise TranslateError(f"unsupported condition {ast.unparse(node)!r} at line {getattr(node, 'lineno', '?')}")
+
+    # entry of the result list produced by one pass of `for var in variables:` -----------------------------
+    def entry(self, stmts, env, ind):
+        stmts = [s for s in stmts if not RuleCompiler.skip(s)]
+        nl = "\n" + ind
+        if not stmts:
+            raise TranslateError("a pass of the result loop appends nothing")
+        s, rest = stmts[0], stmts[1:]
+        if isinstance(s, ast.Expr) and isinstance(s.value, ast.Call) and ast.unparse(s.value.func) == "result.append" and not rest:
+            return self.ex(s.value.args[0], env)
+        if isinstance(s, ast.Assign) and len(s.targets) == 1 and isinstance(s.targets[0], ast.Name):
+            name, val = s.targets[0].id, s.value
+            env2 = dict(env)
+            # i = var_to_idx[var]
+            if isinstance(val, ast.Subscript):
+                dk, vk = ast.unparse(val.value), ast.unparse(val.slice)
+                if dk in env and env[dk][1] == "Dict:Nat" and vk in env and env[vk][1] == "Var":
+                    env2[name] = (f"((dictGet {env[vk][0]}.name {env[dk][0]}).getD 0)", "Nat")
+                    return self.entry(rest, env2, ind)
+            for fn_, ty_ in ((self.ex, "Expr"), (self.ratlist, "RatList")):
+                try:
+                    env2[name] = (fn_(val, env), ty_)
+                except TranslateError:
+                    continue
+                return self.entry(rest, env2, ind)
+            raise TranslateError(f"unsupported assignment in the result loop: {ast.unparse(s)[:60]!r} (line {s.lineno})")
+        if isinstance(s, ast.If) and not rest:
+            # per-operator table of VectorUnarySum.jacobian_row is translated separately (unSumJacRow)
+            if isinstance(s.test, ast.Compare) and ast.unparse(s.test.left) in env and env[ast.unparse(s.test.left)][1] == "VOp":
+                return f"(unSumJacRow {env[ast.unparse(s.test.left)][0]} (Expr.var {env['var'][0]}))"
+            if not s.orelse:
+                raise TranslateError(f"`if` without else in the result loop (line {s.lineno})")
+            return (f"(if {self.cond(s.test, env)} then{nl}  {self.entry(s.body, env, ind + '  ')}{nl}else{nl}  "
+                    f"{self.entry(s.orelse, env, ind + '  ')})")
+        raise TranslateError(f"unsupported statement in the result loop: {ast.unparse(s)[:60]!r} (line {s.lineno})")
+
+    # method body ------------------------------------------------------------------------------------------
+    def block(self, stmts, env, ind):
+        stmts = [s for s in stmts if not RuleCompiler.skip(s)]
+        nl = "\n" + ind
+        if not stmts:
+            raise TranslateError("control reaches the end of jacobian_row")
+        s, rest = stmts[0], stmts[1:]
+        if isinstance(s, ast.Return):
+            v = s.value
+            if v is None or ast.unparse(v) == "None":
+                return "none"
+            if ast.unparse(v) == "result" and "result" in env and env["result"][1] == "Row":
+                return f"some ({env['result'][0]})"
+            if isinstance(v, ast.ListComp) and len(v.generators) == 1 and ast.unparse(v.generators[0].iter) == "variables" \
+                    and isinstance(v.generators[0].target, ast.Name) and not v.generators[0].ifs:
+                x = self.new("x")
+                env2 = dict(env); env2[v.generators[0].target.id] = (x, "Var")
+                return f"some (V.map fun {x} => {self.ex(v.elt, env2)})"
+            raise TranslateError(f"unsupported return {ast.unparse(s)[:60]!r} (line {s.lineno})")
+        if isinstance(s, ast.If):
+            test, neg = s.test, False
+            if isinstance(test, ast.UnaryOp) and isinstance(test.op, ast.Not):
+                test, neg = test.operand, True
+            if neg and isinstance(test, ast.Call) and ast.unparse(test.func) == "isinstance" and not s.orelse \
+                    and len(s.body) == 1 and isinstance(s.body[0], ast.Return) and ast.unparse(s.body[0].value) == "None":
+                xk, what = ast.unparse(test.args[0]), ast.unparse(test.args[1])
+                if xk in env and env[xk][1] == "Vec" and what == "VectorVariable":
+                    vv = self.new("vv")
+                    env2 = dict(env)
+                    env2[xk] = (vv, "VVarObj")
+                    env2[xk + "._variables"] = (f"{vv}.vars", "VarL")
+                    env2["vecterm:" + xk] = (f"(.vars {vv})", "VecTerm")
+                    return f"match {env[xk][0]} with{nl}| .exprs _ => none{nl}| .vars {vv} =>{nl}  {self.block(rest, env2, ind + '  ')}"
+                if xk in env and what == "MatrixVariable":
+                    if env[xk][1] == "MVar":
+                        return self.block(rest, env, ind)
+                    if env[xk][1] == "ExprList":
+                        return "none"
+            c = self.cond(s.test, env)
+            if not s.orelse and always_returns(s.body):
+                return f"if {c} then{nl}  {self.block(s.body, env, ind + '  ')}{nl}else{nl}  {self.block(rest, env, ind + '  ')}"
+            raise TranslateError(f"unsupported `if` in jacobian_row (line {s.lineno})")
+        tgt = val = None
+        if isinstance(s, ast.Assign) and len(s.targets) == 1 and isinstance(s.targets[0], ast.Name):
+            tgt, val = s.targets[0].id, s.value
+        elif isinstance(s, ast.AnnAssign) and isinstance(s.target, ast.Name) and s.value is not None:
+            tgt, val = s.target.id, s.value
+        if tgt is not None:
+            u = ast.unparse(val)
+            env2 = dict(env)
+            if u in env:
+                env2[tgt] = env[u]
+                if "vecterm:" + u in env:
+                    env2["vecterm:" + tgt] = env["vecterm:" + u]
+                return self.block(rest, env2, ind)
+            m = re.fullmatch(r"set\((.+)\)", u)
+            if m and m.group(1) in env and env[m.group(1)][1] == "VarL":
+                env2[tgt] = (env[m.group(1)][0], "VarSet")
+                return self.block(rest, env2, ind)
+            if isinstance(val, ast.BinOp) and isinstance(val.op, ast.Add) and ast.unparse(val.right) == ast.unparse(val.left) + ".T" \
+                    and ast.unparse(val.left) in env and env[ast.unparse(val.left)][1] == "RatMat":
+                env2[tgt] = (f"(qsym {env[ast.unparse(val.left)][0]})", "RatMat")
+                return self.block(rest, env2, ind)
+            if isinstance(val, ast.DictComp) and len(val.generators) == 1 and not val.generators[0].ifs:
+                g = val.generators[0]
+                it, tg = ast.unparse(g.iter), ast.unparse(g.target)
+                # {v: E(v) for v in L}
+                if it in env and env[it][1] == "VarL" and isinstance(g.target, ast.Name) and ast.unparse(val.key) == tg:
+                    x = self.new("v")
+                    e2 = dict(env); e2[tg] = (x, "Var")
+                    env2[tgt] = (f"({env[it][0]}.map fun {x} => ({x}, {self.ex(val.value, e2)}))", "Dict:Expr")
+                    return self.block(rest, env2, ind)
+                # {A[i]: B[i] for i in range(len(A))}
+                m = re.fullmatch(r"range\(len\((\w+)\)\)", it)
+                if m and tg == "i":
+                    a = m.group(1)
+                    mk, mv = re.fullmatch(r"(\w+)\[i\]", ast.unparse(val.key)), re.fullmatch(r"(\w+)\[i\]", ast.unparse(val.value))
+                    if mk and mv and mk.group(1) == a and a in env and mv.group(1) in env \
+                            and env[a][1] == env[mv.group(1)][1] == "VarL":
+                        env2[tgt] = (f"({env[a][0]}.zip {env[mv.group(1)][0]})", "Dict:Var")
+                        return self.block(rest, env2, ind)
+                # {v: i for i, v in enumerate(L)}
+                m = re.fullmatch(r"enumerate\((\w+)\)", it)
+                if m and m.group(1) in env and env[m.group(1)][1] == "VarL" and tg == "(i, v)" \
+                        and ast.unparse(val.key) == "v" and ast.unparse(val.value) == "i":
+                    env2[tgt] = (f"{env[m.group(1)][0]}.zipIdx", "Dict:Nat")
+                    return self.block(rest, env2, ind)
+                raise TranslateError(f"unsupported dict comprehension {u[:70]!r} (line {s.lineno})")
+            if u == "{}" and rest and isinstance(rest[0], ast.For):
+                f = rest[0]
+                ft = ast.unparse(f)
+                # for i, var in enumerate(L): d[var] = float(cs[i])
+                for lk, (lt, lty) in env.items():
+                    if lty != "VarL":
+                        continue
+                    for ck, (ct, cty) in env.items():
+                        if cty == "RatList" and ft == f"for i, var in enumerate({lk}):\n    {tgt}[var] = float({ck}[i])":
+                            env2[tgt] = (f"({lt}.zip {ct})", "Dict:Rat")
+                            return self.block(rest[1:], env2, ind)
+                # for row in M._variables: for var in row: d[var] = d.get(var, 0) + 1
+                for mk_, (mt, mty) in env.items():
+                    if mty == "MVar" and ft == (f"for row in {mk_}._variables:\n    for var in row:\n"
+                                                f"        {tgt}[var] = {tgt}.get(var, 0) + 1"):
+                        env2[tgt] = (f"{mt}.flat", "Count")
+                        return self.block(rest[1:], env2, ind)
+                raise TranslateError(f"unsupported dict-building loop at line {f.lineno}")
+            if u == "[]" and tgt == "result" and rest and isinstance(rest[0], ast.For):
+                f = rest[0]
+                if ast.unparse(f.iter) != "variables" or not isinstance(f.target, ast.Name) or f.orelse:
+                    raise TranslateError(f"the result loop does not run over `variables` (line {f.lineno})")
+                x = self.new("x")
+                e2 = dict(env); e2[f.target.id] = (x, "Var")
+                if f.target.id != "var":
+                    e2["var"] = (x, "Var")
+                env2["result"] = (f"V.map fun {x} =>{nl}  {self.entry(f.body, e2, ind + '  ')}", "Row")
+                return self.block(rest[1:], env2, ind)
+            raise TranslateError(f"unsupported assignment {tgt} = {u[:60]!r} (line {s.lineno})")
+        raise TranslateError(f"unsupported statement {ast.unparse(s)[:70]!r} at line {s.lineno}")
+
+
+def gen_jacrow_vec(vec: ast.AST, mat: ast.AST, ex: ast.AST) -> str:
+    """the `jacobian_row` methods of every node class except BinaryOp (which is Generated/JacRow.lean), and the dispatch"""
+    def cls_of(tree, name):
+        return next((n for n in ast.walk(tree) if isinstance(n, ast.ClassDef) and n.name == name), None)
+    base = cls_of(ex, "Expression")
+    bj = next((n for n in base.body if isinstance(n, ast.FunctionDef) and n.name == "jacobian_row"), None)
+    if bj is None or [ast.unparse(s) for s in bj.body if not RuleCompiler.skip(s)] != ["return None"]:
+        raise TranslateError("Expression.jacobian_row: the default is no longer `return None`")
+    out, arms = [], {}
+    for cls, ctor, fields in CTORS:
+        if cls in ("Constant", "Variable", "BinaryOp", "UnaryOp", "Parameter"):
+            tree = ex if cls != "Parameter" else None
+        else:
+            tree = mat if cls in ("MatrixSum", "QuadraticForm", "FrobeniusNorm") else vec
+        c = cls_of(tree, cls) if tree is not None else None
+        if cls == "BinaryOp":
+            continue
+        fn = next((n for n in c.body if isinstance(n, ast.FunctionDef) and n.name == "jacobian_row"), None) if c is not None else None
+        if c is not None and fn is None:
+            bases = [ast.unparse(b) for b in c.bases]
+            if bases != ["Expression"]:
+                raise TranslateError(f"{cls}: unexpected base classes {bases}")
+        if fn is None:
+            continue
+        if [a.arg for a in fn.args.args] != ["self", "variables"]:
+            raise TranslateError(f"{cls}.jacobian_row: unexpected signature")
+        comp = RowCompiler()
+        env = {}
+        params = ["(V : List Var)"]
+        for attr, b, ty in fields:
+            params.append(f"({b} : {LEAN_TY[ty]})")
+            key = f"self.{attr}"
+            if ty == "VVar":
+                env[key] = (b, "VVarObj")
+                env[key + "._variables"] = (f"{b}.vars", "VarL")
+            elif ty in ("Vec", "MVar", "ExprList", "RatMat", "Rat", "VOp", "RatList"):
+                env[key] = (b, ty)
+        # `LinearCombination(coeffs, self.vector)` needs the vector as a term
+        for attr, b, ty in fields:
+            if ty == "Vec":
+                env["vecterm:self." + attr] = (b, "VecTerm")
+        body = comp.block(fn.body, _VecTermEnv(env), "  ")
+        out.append(f"/-- `{cls}.jacobian_row`" + (f" (operand kind `{ctor}`)" if cls == "MatrixSum" else "") + " -/")
+        out.append(f"def {ctor}RowG {' '.join(params)} : Option (List Expr) :=\n  {body}\n")
+        arms[ctor] = f"{ctor}RowG V {' '.join(b for _, b, _ in fields)}"
+    out.append("/-- `expr.jacobian_row(variables)`: the method of the node's class (`recRow` stands for the calls on the operands")
+    out.append("    of a BinaryOp, whose method is `Generated.binJacRow`); classes without a method inherit `return None` -/")
+    out.append("def jacRowStepG (V : List Var) (recRow : Expr → Option (List Expr)) : Expr → Option (List Expr)")
+    for cls, ctor, fields in CTORS:
+        binders = " ".join(b for _, b, _ in fields)
+        if ctor == "bin":
+            out.append("  | .bin op l r => binJacRow op l r (recRow l) (recRow r)")
+        elif ctor in arms:
+            out.append(f"  | .{ctor} {binders} => {arms[ctor]}")
+        else:
+            out.append(f"  | .{ctor} {binders} => none")
+    return "\n".join(out) + "\n"
+
+
+class _VecTermEnv(dict):
+    """`self.vector` used as an *expression operand* (LinearCombination(coeffs, self.vector)) resolves to the Vec term"""
+    def __contains__(self, k):
+        return dict.__contains__(self, k)
